@@ -49,7 +49,8 @@ class StateWorld(Run):
 
     def __init__(self, cfg):
         super().__init__(cfg)
-        self.pc = sut.load()
+        self.S = sut.backend(cfg.get("backend", "numpy"))
+        self.pc = self.S.mod
         self.n = cfg["n"]
         self.flags = set(cfg["flags"])
         self.slots = {}
@@ -229,7 +230,7 @@ class StateWorld(Run):
             if spec.get("ctor") == "rotation_gate":
                 if len(G[0]) != self.n:
                     raise Skip()
-                gate = pc.clifford_rotation_gate(sut.mk_pauli(G))
+                gate = pc.clifford_rotation_gate(self.S.mk_pauli(G))
                 # the gate lives on the support chosen by the package (environment: condense)
                 q = [int(x) for x in gate.qubits]
                 loc = (tuple(G[0][i] for i in q), G[1])
@@ -237,7 +238,7 @@ class StateWorld(Run):
                 if len(G[0]) != len(q):
                     raise Skip()
                 gate = pc.CliffordGate(*q)
-                gate.set_generator(sut.mk_pauli(G))
+                gate.set_generator(self.S.mk_pauli(G))
                 loc = G
             m = len(q)
             fwd = [rm.rotate(p, loc) for p in rm.identity_images(m)]
@@ -253,11 +254,13 @@ class StateWorld(Run):
             bwd = word_images(m, inverse_word(w))
             gate = pc.CliffordGate(*q)
             if kind in ("fmap", "fbmap"):
-                gate.set_forward_map(sut.mk_map(fwd))
+                gate.set_forward_map(self.S.mk_map(fwd))
             if kind in ("bmap", "fbmap"):
-                gate.set_backward_map(sut.mk_map(bwd))
+                gate.set_backward_map(self.S.mk_map(bwd))
             return gate, RefGate(q, fwd, bwd)
         if kind == "named":
+            if self.S.name != "numpy":
+                raise Skip()   # torchclifford has no named-gate constructors
             name = spec["name"]
             if name == "CNOT":
                 qq = q if spec.get("order") == "asc" else list(reversed(q))
@@ -277,9 +280,9 @@ class StateWorld(Run):
         m = len(qubits)
         g2 = gate.copy()
         g2.qubits = tuple(range(m))
-        ident = sut.mk_list(rm.identity_images(m))
+        ident = self.S.mk_list(rm.identity_images(m))
         fwd = sut.list_to_ref(g2.forward(ident))
-        ident = sut.mk_list(rm.identity_images(m))
+        ident = self.S.mk_list(rm.identity_images(m))
         bwd = sut.list_to_ref(g2.backward(ident))
         return RefGate(qubits, fwd, bwd)
 
